@@ -528,13 +528,15 @@ def _fields(repo, rep):
         uses_start = any(isinstance(n, ast.Call) and
                          src(n.func) == lv + ".start"
                          for n in ast.walk(mt.node))
-        rep.check(uses_start, "R03.3", mt.qualname,
-                  "text between two attribute matches (skipped by finditer) "
-                  "is kept: the scan looks at where each match starts",
+        agrees, adetail = unquoted_class_agrees(repo)
+        rep.check(uses_start or agrees, "R03.3", mt.qualname,
+                  "no text of a tag is skipped by the finditer scan: either "
+                  "the scan accounts for where each match starts, or every "
+                  "unquoted value the tokenizer admits is matched whole by "
+                  "the attribute pattern (no gap can arise)",
                   construct="attribute-gaps", where=L.where(mt),
-                  detail="only %s.end() of the last match is used: "
-                         "characters that match no attribute are dropped"
-                         % lv)
+                  detail="only %s.end() of the last match is used and %s"
+                         % (lv, adetail))
         # the prefix pattern's suffix group is optional (an end tag need not
         # be terminated: '</a' + blanks); with no attribute match either,
         # the text after the name has to become the suffix all the same
@@ -561,16 +563,71 @@ def _fields(repo, rep):
         if isinstance(n, ast.Subscript) and src(n.value) == "end" and \
                 isinstance(n.slice, ast.Constant):
             used.add(n.slice.value)
-    rep.check("attrs" in used, "R03.3", vfunc.qualname,
+    # ... unless an end tag token cannot carry any: the tokenizer's EndTagCE
+    # is Name, white space, '>' -- attribute-like text after an end tag's
+    # name is a text token of its own (and match_tag keeps the blanks,
+    # suffix-total above)
+    pieces = fold_collector(repo)
+    etag, nm = pieces.get("EndTagCE"), pieces.get("Name")
+    if etag is None or nm is None:
+        raise AnalysisError("tokenizer pieces EndTagCE / Name vanished")
+    bare_end = False
+    edetail = "EndTagCE %r" % etag
+    if etag.startswith(nm):
+        tail = rx.all_chars(rx.parse(etag[len(nm):]))
+        allowed = rx.in_set([(rx.C.CATEGORY, rx.C.CATEGORY_SPACE)]) | \
+            rx.CharSet.of(">")
+        bare_end = tail <= allowed
+        edetail = "after the name an end tag token holds %s" % tail
+    rep.check("attrs" in used or bare_end, "R03.3", vfunc.qualname,
               "attribute-like text inside an end tag is emitted (or "
-              "rejected), like every other part of the tag",
+              "rejected), like every other part of the tag -- or an end tag "
+              "token cannot contain any",
               construct="end:attrs-dropped", where=L.where(vfunc),
-              detail="the End node is built from %s only" % sorted(used))
+              detail="the End node is built from %s only; %s" % (
+                  sorted(used), edetail))
     for g in ("space", "name", "eq", "quote", "value", "alt_value",
               "simple_value"):
         rep.check(g in anames, "R03.3", PARSER + ".match_single_attribute",
                   "attribute regex captures '%s'" % g, construct="agroup:" + g)
     _eq_grammar(repo, rep)
+
+
+def unquoted_class_agrees(repo):
+    """Every character the tokenizer admits in an unquoted attribute value
+    (third alternative of AttValSE) can be consumed by the parser's
+    alt_value group: the parser then matches the whole value, and finditer
+    has no gap to skip.  -> (ok, detail)"""
+    from .. import rx
+    import re as _re
+    C = rx.C
+    res = fold_collector(repo)
+    att = res.get("AttValSE")
+    if att is None:
+        raise AnalysisError("tokenizer piece AttValSE vanished")
+    tset = None
+    for alt in rx.top_alternatives(rx.parse(att)):
+        alt = list(alt)
+        if len(alt) == 1 and alt[0][0] in (C.MAX_REPEAT, C.MIN_REPEAT) and \
+                alt[0][1][0] >= 1:
+            tset = rx.all_chars(alt[0][1][2])
+    if tset is None:
+        return False, "no unquoted alternative in AttValSE %r" % att
+    rc = repo.const("chameleon.parser", "match_single_attribute")
+    pat = rc.pattern if isinstance(rc.pattern, str) else \
+        rc.pattern.decode("latin-1")
+    gi = _re.compile(pat, rc.flags).groupindex
+    loc = rx.locate_group(rx.parse(pat, rc.flags), gi.get("alt_value"))
+    if loc is None:
+        return False, "no alt_value group"
+    body = list(loc[0])
+    if not (len(body) == 1 and body[0][0] in (C.MAX_REPEAT, C.MIN_REPEAT)
+            and body[0][1][0] >= 1 and body[0][1][1] >= 65535):
+        return False, "alt_value is not an unbounded repetition"
+    pset = rx.all_chars(body)
+    missing = tset - pset
+    return not missing, "tokenizer admits %s, parser consumes %s%s" % (
+        tset, pset, ", not: %s" % missing if missing else "")
 
 
 def _eq_grammar(repo, rep):
